@@ -113,6 +113,35 @@ theorem shared_differs (loss g pmax p1 p2 : ℝ) (hsat : pmax < p1 - loss + g) (
   simp only [List.cons.injEq, and_true, true_and] at hc
   linarith
 
+/-- no amplifier of the line clamps for launch power `p` -/
+def Unsat : List (ℝ × Edfa ℝ) → ℝ → Prop
+  | [], _ => True
+  | (loss, e) :: rest, p => p - loss + e.effGain ≤ e.pMax ∧ Unsat rest (p - loss + e.effGain)
+
+theorem propagate_unsaturated (net : List (ℝ × Edfa ℝ)) (p : ℝ) (h : Unsat net p) : (propagate net p).1 = net := by
+  induction net generalizing p with
+  | nil => rfl
+  | cons x rest ih =>
+    obtain ⟨loss, e⟩ := x
+    obtain ⟨h1, h2⟩ := h
+    have hc : e.effGain ≤ e.pMax - (p - loss) := by linarith
+    simp only [propagate, Edfa.call, hc, if_true]
+    rw [ih _ h2]
+
+/-- the copy is needed exactly because of the clamp: when no request of the batch drives any amplifier into its
+clamp, sharing the objects gives the same results and leaves the network as it was -/
+theorem planShared_eq_planCopy_of_unsaturated (net : List (ℝ × Edfa ℝ)) (ps : List ℝ) (h : ∀ p ∈ ps, Unsat net p) :
+    planShared net ps = planCopy net ps := by
+  induction ps with
+  | nil => rfl
+  | cons p rest ih =>
+    have hp := propagate_unsaturated net p (h p (by simp))
+    have hrest := ih (fun q hq => h q (List.mem_cons_of_mem _ hq))
+    simp only [planShared, planCopy, propagateOnCopy]
+    have : propagate net p = (net, (propagate net p).2) := Prod.ext hp rfl
+    rw [this]
+    simp only [hrest]
+
 /-! ### non-vacuity -/
 example : (plan (⟨fun (s : Nat) (r : Nat) => s + r, fun (sl : Nat) x => (sl + 1, sl)⟩ : Pipeline Nat Nat Nat Nat Nat)
     5 0 [1, 2, 3]).results = [6, 7, 8] := by decide
